@@ -31,13 +31,11 @@ void *bsearch(const void *key, const void *base, size_t n, size_t sz, int (*cmp)
 }
 void qsort(void *base, size_t n, size_t sz, int (*cmp)(const void *, const void *))
 {
-  char tmp[sizeof(Crystal_Struct)];
+  Crystal_Struct *v = (Crystal_Struct *)base, t;
   size_t i, j;
   __CPROVER_assert(sz == sizeof(Crystal_Struct), "qsort is called on crystal entries");
-  for (i = 1; i < n; i++) for (j = i; j > 0; j--) {
-    char *a = (char *)base + (j - 1) * sz, *b = (char *)base + j * sz;
-    if (cmp(a, b) > 0) { memcpy(tmp, a, sizeof(Crystal_Struct)); memcpy(a, b, sizeof(Crystal_Struct)); memcpy(b, tmp, sizeof(Crystal_Struct)); }
-  }
+  for (i = 1; i < n; i++) for (j = i; j > 0; j--)
+    if (cmp(&v[j - 1], &v[j]) > 0) { t = v[j - 1]; v[j - 1] = v[j]; v[j] = t; }   /* entries move as whole structs */
 }
 
 /* the built-in collection: full (capacity 1), one entry named "m" */
